@@ -56,7 +56,7 @@ def package_lints(ctx):
 
 
 def transforms_for(ctx, out=print):
-    """Fourteen whole-tree behaviour-preserving transforms (selftest/transforms.py), each applied to every module in memory:
+    """Nineteen whole-tree behaviour-preserving transforms (selftest/transforms.py), each applied to every module in memory:
     this property's verdict must not change."""
     from selftest.transforms import read_sources, transform, call_tables
     prop = ctx.prop
@@ -65,7 +65,7 @@ def transforms_for(ctx, out=print):
     base_new = len([f for f in ctx.findings if match_known(f, known) is None])
     srcs = read_sources(ctx.prog.root)
     kinds = ("reformat", "rename", "pad", "hoist", "invert", "nest", "unnest", "splitand", "extend", "retlocal", "swapeq",
-             "earlycontinue", "positional", "keywords")
+             "earlycontinue", "positional", "keywords", "argtemp", "notin", "demorgan", "ifexp", "recvtemp")
     table = call_tables(ctx.prog.root)
     for kind in kinds:
         ov = {}
